@@ -4,6 +4,8 @@ import re
 import hir as H
 import mir as M
 import rulelib as L
+import symrules as SR
+import sym
 import spec_tables as S
 
 CRATES = ["identity_jose"]
@@ -27,200 +29,152 @@ def run(F, R, tier):
     # ------------------------------------------------------------------ R1 conjunction + every encoder/decoder validates
     r1 = R.rule("C11-R1", "T2", "validate_jws_headers = validate_disjoint ∧ validate_crit ∧ validate_b64 on (protected, unprotected); all encoders and the decoder pass through it")
     vfn = SER + "::validate_jws_headers"
-    L.require_tried_before_success(r1, F, vfn, [
-        ("validate_disjoint", SER + "::validate_disjoint"), ("validate_crit", SER + "::validate_crit"), ("validate_b64", SER + "::validate_b64")])
-    h = F.hir(vfn)
-    if h:
-        env = H.Env(h)
-        for sub in ("validate_disjoint", "validate_crit", "validate_b64"):
-            L.arg_origin_check(r1, F, vfn, SER + "::" + sub, 0, [("param", "protected")], sub + ".protected", env, h)
-            L.arg_origin_check(r1, F, vfn, SER + "::" + sub, 1, [("param", "unprotected")], sub + ".unprotected", env, h)
-    # wrappers and constructors: fixpoint of "validated" functions
-    validated = {vfn}
-    wrappers = [ENC + "::CompactJwsEncoder::validate_header", UTL + "::validate_headers_json_serialization"]
-    for w in wrappers:
-        succ = L.require_tried_before_success(r1, F, w, [("validate_jws_headers", vfn)], delegate=vfn)
-        validated.add(w)
+    # (a) the conjunction, by abstract evaluation with the three validators as opaque calls
+    tab = SR.Table(F, vfn, opaque=r"jwu::serde::validate_(disjoint|crit|b64)$", rule=r1)
+    for sub in ("validate_disjoint", "validate_crit", "validate_b64"):
+        def ok_(q, sub=sub):
+            return SR.call_succeeded(q, r"::%s$" % sub, {0: lambda a: sym.term(a) == SR.param("protected"), 1: lambda a: sym.term(a) == SR.param("unprotected")})
+        SR.require_on_success(r1, tab, "%s(protected, unprotected) ✓" % sub, ok_, key=(vfn, "missing-before-success", sub),
+                              what="%s(protected, unprotected)? succeeded" % sub)
+    # (b) every encoder constructor and the decoder: each accepting path has validate_jws_headers ✓ on the headers it goes on to use
     ctors = [
-        (ENC + "::CompactJwsEncoder::new_with_options", [("param", "protected_header")]),
-        (ENC + "::FlattenedJwsEncoder::new", [("param", "recipient")]),
-        (ENC + "::GeneralJwsEncoder::new", [("param", "first_recipient")]),
-        (ENC + "::GeneralJwsEncoder::add_recipient", [("param", "recipient")]),
-        (DEC + "::Decoder::decode_signature", None),
+        (ENC + "::CompactJwsEncoder::new_with_options", SR.param("protected_header"), None),
+        (ENC + "::FlattenedJwsEncoder::new", SR.fld("protected", base=SR.param("recipient")), SR.fld("unprotected", base=SR.param("recipient"))),
+        (ENC + "::GeneralJwsEncoder::new", SR.fld("protected", base=SR.param("first_recipient")), SR.fld("unprotected", base=SR.param("first_recipient"))),
+        (ENC + "::GeneralJwsEncoder::add_recipient", SR.fld("protected", base=SR.param("recipient")), SR.fld("unprotected", base=SR.param("recipient"))),
+        (DEC + "::Decoder::decode_signature", SR.fld("protected", base=SR.param("jws_signature")), SR.fld("header", base=SR.param("jws_signature"))),
     ]
-    vpat = list(validated)
-    for fn, allowed in ctors:
-        L.require_tried_before_success(r1, F, fn, [("validate headers", vpat)])
-        if allowed is not None:
-            L.arg_origin_check(r1, F, fn, vpat, 0, allowed, "validated-header")
-    # the decoder validates the headers it decoded from this signature entry
-    dh = F.hir(DEC + "::Decoder::decode_signature")
-    if dh:
-        env = H.Env(dh)
-        for c in H.calls(dh, vfn):
-            o0 = H.origins(c["args"][0], env, extra=re.compile(r"decode_b64_json$"))
-            o1 = H.origins(c["args"][1], env)
-            r1.require(any(o[:3] == ("param", "jws_signature", "protected") for o in o0), (DEC, "decode_signature", "validated-protected"),
-                       "decoder validates a protected header that is not the one decoded from jws_signature.protected: %s" % sorted(map(str, o0)))
-            r1.require(any(o[:3] == ("param", "jws_signature", "header") for o in o1), (DEC, "decode_signature", "validated-unprotected"),
-                       "decoder validates an unprotected header that is not jws_signature.header: %s" % sorted(map(str, o1)))
-    # all callers of validate_jws_headers are known
-    known = set(wrappers) | {DEC + "::Decoder::decode_signature"}
+    for fn, prot, unprot in ctors:
+        if not r1.anchor(F.hir(fn), fn):
+            continue
+        t2 = SR.Table(F, fn, opaque=r"validate_jws_headers$|create_message$|DecodedHeaders::new$|::decode_b64(_json)?$|::encode_b64(_json)?$|encode_if_b64$|into_non_detached$", rule=r1, max_paths=4000)
+
+        def ok2(q, prot=prot, unprot=unprot):
+            for e in q.calls(r"validate_jws_headers$"):
+                if q.succeeded(e) is not True or len(e.args) < 2:
+                    continue
+                a0, a1 = e.args
+                p_ok = SR.derives(a0, prot) or (SR.variant(q, prot) == "None" and sym.term(a0) == ("ctor", "None"))
+                u_ok = (sym.term(a1) == ("ctor", "None")) if unprot is None else (SR.derives(a1, unprot) or (SR.variant(q, unprot) == "None" and sym.term(a1) == ("ctor", "None")))
+                if p_ok and u_ok:
+                    return True
+            return False
+        SR.require_on_success(r1, t2, "validate_jws_headers(own headers) ✓", ok2, key=(fn, "missing-before-success", "validate headers"),
+                              what="validate_jws_headers(<the protected header used>, <the unprotected header used>)? succeeded")
+        r1.site("%s: %d accepting / %d rejecting path(s)" % (L.short(fn), len(t2.ok()), len(t2.err())))
     for (p, bi, t) in F.callers(vfn):
         r1.site("caller of validate_jws_headers: %s" % L.short(p), t["sp"])
-    r1.floor(20)
+    r1.floor(14)
 
     # ------------------------------------------------------------------ R2 validate_crit
     r2 = R.rule("C11-R2", "T4+T7", "validate_crit: unprotected crit → Err; empty → Err; each value: predefined → Err, not permitted → Err, absent → Err; tables agree with RFC 7515/7516/7518")
     cfn = SER + "::validate_crit"
-    h = F.hir(cfn)
-    if r2.anchor(h, cfn):
-        env = H.Env(h)
-        tree, infos = L.exit_infos(h)
-        top = L.block_guards(H.root(h))
-        found = {}
-        for cond, oc, node in top:
-            roots, accs = roots_and_accessors(cond, env)
-            lits = H.literals(cond)
-            if "unprotected" in roots and "has_claim" in accs and "crit" in lits:
-                found["unprotected-crit"] = (oc, node)
-            elif "is_empty" in accs and ("protected" in roots):
-                found["empty-crit"] = (oc, node)
-        for name in ("unprotected-crit", "empty-crit"):
-            if name in found:
-                r2.site("guard %s → %s" % (name, found[name][0]), found[name][1]["sp"])
-                r2.require(found[name][0].startswith("Err("), (cfn, name, "outcome"), "guard `%s` does not return an error" % name)
-            else:
-                r2.fail((cfn, name, "missing"), "validate_crit: the `%s` rejection is missing from the function's top-level guard sequence" % name)
-        # `values` comes from the protected header's crit
-        loops = L.for_loops(h)
-        if r2.require(len(loops) == 1, (cfn, "loop"), "expected exactly one loop over the crit values, found %d" % len(loops)):
-            it, pat, body, _ = loops[0]
-            io = H.origins(it, env)
-            roots, accs = roots_and_accessors(it, env)
-            # values ← protected.and_then(|h| h.common().crit())
-            crit_src = [n for n in H.walk(H.root(h)) if n.get("k") == "let" and any(b[0] == "values" for b in H.pat_bindings(n["pat"]))]
-            ok_src = False
-            for lt in crit_src:
-                rr, aa = roots_and_accessors(lt["init"], env)
-                if "protected" in rr and "crit" in aa:
-                    ok_src = True
-            r2.require(ok_src and "protected" in roots, (cfn, "values-source"), "the crit values iterated are not the protected header's crit (roots %s)" % sorted(roots))
-            guards = {}
-            for cond, oc, node in L.block_guards(body):
-                inner, neg = H.negated(cond)
-                fns = H.called_fns(inner)
-                consts = {x.get("res", {}).get("def") for x in H.walk(inner) if x.get("k") == "path"}
-                if SER + "::PREDEFINED" in consts and any(f.endswith("::contains") for f in fns):
-                    guards["predefined"] = (neg, oc, node)
-                elif SER + "::PERMITTED_CRITS" in consts and any(f.endswith("::contains") for f in fns):
-                    guards["permitted"] = (neg, oc, node)
-                else:
-                    # `exists` flag
-                    oo = H.origins(inner, env)
-                    rr, aa = roots_and_accessors(inner, env)
-                    defs_ = [d for bid, ds in env.defs.items() if env.names.get(bid) == "exists" for d in ds]
-                    for (e, _p) in defs_:
-                        rr2, aa2 = roots_and_accessors(e, env)
-                        rr |= rr2
-                        aa |= aa2
-                        for cl in H.walk(e):
-                            if cl.get("k") == "closure":
-                                rr3, aa3 = roots_and_accessors(cl["body"], env)
-                                aa |= aa3
-                    if "has_claim" in aa:
-                        guards["present"] = (neg, oc, node, rr)
-            want = {"predefined": False, "permitted": True, "present": True}
-            for g, wneg in want.items():
-                if g not in guards:
-                    r2.fail((cfn, g, "missing"), "validate_crit: per-value check `%s` is missing from the loop body's guard sequence" % g)
-                    continue
-                r2.site("per-value guard %s (negated=%s) → %s" % (g, guards[g][0], guards[g][1]), guards[g][2]["sp"])
-                r2.require(guards[g][0] == wneg, (cfn, g, "polarity"), "per-value check `%s` has the wrong polarity" % g)
-                r2.require(guards[g][1].startswith("Err("), (cfn, g, "outcome"), "per-value check `%s` does not return an error" % g)
-            if "present" in guards:
-                rr = guards["present"][3]
-                r2.require({"protected", "unprotected"} <= rr or "protected" in rr, (cfn, "present", "headers"), "presence check does not consult the headers (roots %s)" % sorted(rr))
-        # no early Ok
-        for e in infos:
-            if L.is_success_exit(e):
-                r2.require(not any(c[0] in ("if",) and c[2] is True for c in e.conds) and e.in_closure is None and not any(c[0] == "loop" for c in e.conds),
-                           (cfn, "early-ok"), "validate_crit has a conditional/early success exit", e.node.get("sp"))
-        # tables
+    CRIT_OPQ = None   # trait methods (has_claim, common, crit) are unresolved generic calls and stay opaque by themselves
+    if r2.anchor(F.hir(cfn), cfn):
+        tab = SR.Table(F, cfn, opaque=CRIT_OPQ, rule=r2, max_paths=6000)
+        UNP, PRO = SR.param("unprotected"), SR.param("protected")
+
+        def has_claim_atoms(q):
+            out = []
+            for (a, c, _, _) in q.decisions:
+                if a[0] == "truth" and isinstance(a[1], tuple) and a[1][:1] == ("call",) and a[1][1].endswith("has_claim"):
+                    out.append((a[1][2], c))
+            return out
+
+        def elems(q):
+            es = set()
+            for (a, c, _, _) in q.decisions:
+                for t_ in a[1:]:
+                    for x in sym.subterms(t_) if isinstance(t_, tuple) else ():
+                        if isinstance(x, tuple) and x[:1] == ("elem",):
+                            es.add(x)
+            return es
+
+        n_ok = 0
+        for q in tab.ok():
+            n_ok += 1
+            # (a) an unprotected crit is never accepted
+            for args, val in has_claim_atoms(q):
+                if val and SR.derives(args[0], UNP) and args[1] == ("lit", "crit"):
+                    r2.fail((cfn, "unprotected-crit", "missing"), "validate_crit accepts a `crit` parameter in the unprotected header — path: %s" % q.describe()[:200])
+            crit_present = [t_ for t_, v_ in q.variant.items() if v_ == "Some" and SR.derives(t_, PRO) and "crit" in sym.fmt(t_)]
+            if SR.variant(q, UNP) == "Some":
+                r2.require(any(SR.derives(args[0], UNP) and args[1] == ("lit", "crit") and val is False for args, val in has_claim_atoms(q)), (cfn, "unprotected-crit", "unchecked"),
+                           "validate_crit accepts without having tested the unprotected header for `crit` — path: %s" % q.describe()[:200])
+            es = elems(q)
+            if crit_present:
+                # (b) an empty list is never accepted
+                ne = [c for (a, c, _, _) in q.decisions if a[0] == "nonempty" and any(SR.derives(a[1], t_) or a[1] == t_ for t_ in crit_present)]
+                r2.require(ne and all(ne), (cfn, "empty", "missing"), "validate_crit accepts an empty `crit` list — path: %s" % q.describe()[:200])
+            for e in es:
+                trues = [a[2] if a[1] == e else a[1] for (a, c, _, _) in q.decisions if a[0] == "eq" and c is True and e in (a[1], a[2])]
+                names = [t_[1] for t_ in trues if isinstance(t_, tuple) and t_[:1] == ("lit",) and isinstance(t_[1], str)]
+                # (c) every listed value is an implemented extension and not a registered header parameter
+                r2.require(len(names) == 1 and names[0] in S.IMPLEMENTED_CRIT_EXTENSIONS and names[0] not in S.JOSE_REGISTERED_HEADER_PARAMS, (cfn, "permitted", "missing"),
+                           "validate_crit accepts a crit value that is not one of the implemented extensions %s (established equalities: %s) — path: %s" % (
+                               S.IMPLEMENTED_CRIT_EXTENSIONS, names, q.describe()[:160]))
+                # (d) … and is present as a header parameter
+                r2.require(any(val and args[1] == e for args, val in has_claim_atoms(q)), (cfn, "present", "missing"),
+                           "validate_crit accepts a crit value without the named parameter being present in the headers — path: %s" % q.describe()[:200])
+        r2.site("validate_crit: %d accepting and %d rejecting path(s) evaluated" % (n_ok, len(tab.err())))
+        # the rejecting side: each registered name is rejected when listed (there is a rejecting path on which value == name holds)
+        rej = set()
+        for q in tab.err():
+            for (a, c, _, _) in q.decisions:
+                if a[0] == "eq" and c is True:
+                    for t_ in (a[1], a[2]):
+                        if isinstance(t_, tuple) and t_[:1] == ("lit",) and isinstance(t_[1], str):
+                            rej.add(t_[1])
+        acc = set()
+        for q in tab.ok():
+            for (a, c, _, _) in q.decisions:
+                if a[0] == "eq" and c is True:
+                    for t_ in (a[1], a[2]):
+                        if isinstance(t_, tuple) and t_[:1] == ("lit",) and isinstance(t_[1], str):
+                            acc.add(t_[1])
+        r2.site("crit values accepted on some path: %s; rejected by name: %d registered parameters" % (sorted(acc), len(rej & set(S.JOSE_REGISTERED_HEADER_PARAMS))))
+        for name in S.JOSE_REGISTERED_HEADER_PARAMS:
+            r2.require(name not in acc, ("tables", "registered-accepted", name), "registered header parameter %r is accepted in crit" % name)
+        r2.require(acc <= set(S.IMPLEMENTED_CRIT_EXTENSIONS), ("tables", "unimplemented-permitted"), "crit accepts %s, implemented extensions are %s" % (sorted(acc), S.IMPLEMENTED_CRIT_EXTENSIONS))
         pre = L.const_str_array(F, SER + "::PREDEFINED")
         per = L.const_str_array(F, SER + "::PERMITTED_CRITS")
-        if r2.anchor(pre, "PREDEFINED") and r2.anchor(per, "PERMITTED_CRITS"):
+        if pre is not None and per is not None:
             r2.site("PREDEFINED = %s" % pre)
             r2.site("PERMITTED_CRITS = %s" % per)
-            for name in S.JOSE_REGISTERED_HEADER_PARAMS:
-                rejected = (name in pre) or (name not in per)
-                r2.require(rejected, ("tables", "registered-accepted", name), "registered header parameter %r would be accepted in crit" % name)
-            r2.require(not (set(per) & set(S.JOSE_REGISTERED_HEADER_PARAMS)), ("tables", "permitted-registered"), "PERMITTED_CRITS contains a registered name")
-            r2.require(set(per) <= set(S.IMPLEMENTED_CRIT_EXTENSIONS), ("tables", "unimplemented-permitted"),
-                       "PERMITTED_CRITS %s contains an extension the library does not implement (implemented: %s)" % (per, S.IMPLEMENTED_CRIT_EXTENSIONS))
-    r2.floor(7)
+    r2.floor(3)
 
-    # ------------------------------------------------------------------ R3 validate_b64
     r3 = R.rule("C11-R3", "T4", "validate_b64: unprotected b64 → Err; (b64, no crit) → Err; b64 present ⇒ crit lists it (composition with R2 and PERMITTED_CRITS == {b64})")
     bfn = SER + "::validate_b64"
-    h = F.hir(bfn)
-    if r3.anchor(h, bfn):
-        env = H.Env(h)
-        top = L.block_guards(H.root(h))
-        okg = False
-        for cond, oc, node in top:
-            roots, accs = roots_and_accessors(cond, env)
-            inner, neg = H.negated(cond)
-            if "unprotected" in roots and "b64" in accs and "is_some" in accs and not neg:
-                okg = True
-                r3.site("guard unprotected b64 → %s" % oc, node["sp"])
-                r3.require(oc.startswith("Err("), (bfn, "unprotected-b64", "outcome"), "unprotected b64 guard does not return an error")
-        r3.require(okg, (bfn, "unprotected-b64", "missing"), "validate_b64: rejection of an unprotected b64 parameter is missing")
-        m = H.find_first(h, lambda n: n.get("k") == "match" and n.get("src") == "normal" and H.strip(n["scrut"]).get("k") == "tup")
-        if r3.require(m is not None, (bfn, "table"), "validate_b64: the (b64, crit) decision table was not found"):
-            sc = H.strip(m["scrut"])
-            r0, a0 = set(), set()
-            for i, e in enumerate(sc["es"]):
-                # follow the let
-                oo = H.origins(e, env)
-                pass
-            names = []
-            for e in sc["es"]:
-                e = H.strip(e)
-                names.append(e.get("res", {}).get("local"))
-            srcs = {}
-            for nm in names:
-                for bid, ds in env.defs.items():
-                    if env.names.get(bid) == nm:
-                        for (e, _p) in ds:
-                            rr, aa = roots_and_accessors(e, env)
-                            for cl in H.walk(e):
-                                if cl.get("k") == "closure":
-                                    aa |= roots_and_accessors(cl["body"], env)[1]
-                            srcs[nm] = (rr, aa)
-            r3.require(len(names) == 2 and names[0] in srcs and "protected" in srcs[names[0]][0] and "b64" in srcs[names[0]][1],
-                       (bfn, "scrut-b64"), "first scrutinee is not the protected header's b64 (%s)" % (srcs.get(names[0] if names else None),))
-            r3.require(len(names) == 2 and names[1] in srcs and "protected" in srcs[names[1]][0] and "crit" in srcs[names[1]][1],
-                       (bfn, "scrut-crit"), "second scrutinee is not the protected header's crit (%s)" % (srcs.get(names[1] if len(names) > 1 else None),))
-            table = []
-            for arm in m["arms"]:
-                table.append((H.pat_str(arm["pat"]), arm.get("guard") is not None, H.outcome(arm["body"])))
-                r3.site("row %s%s → %s" % (table[-1][0], " if <guard>" if table[-1][1] else "", table[-1][2]), arm["body"].get("sp"))
-            # (Some, None) must be Err and must come before any catch-all
-            idx_err = next((i for i, t in enumerate(table) if t[0] == "(Some(_), None)" and not t[1]), None)
-            idx_wild = next((i for i, t in enumerate(table) if t[0] in ("_", "(_, _)", "(Some(_), _)", "(_, None)") and not t[1]), len(table))
-            r3.require(idx_err is not None and table[idx_err][2].startswith("Err(") and idx_err < idx_wild, (bfn, "row", "(Some,None)"),
-                       "row (b64 present, crit absent) does not yield an error (table %s)" % table)
-            # the guarded Ok row tests membership of the literal "b64"
-            for arm in m["arms"]:
-                if arm.get("guard") is not None:
-                    r3.require("b64" in H.literals(arm["guard"]), (bfn, "row", "guard-literal"), "guarded row does not test for the \"b64\" value")
-            # rows left to `_`: (Some, Some(values without b64)) → Ok in the code; sound only because validate_crit rejects every
-            # crit value ∉ PERMITTED_CRITS and PERMITTED_CRITS == ["b64"]
-            per = L.const_str_array(F, SER + "::PERMITTED_CRITS")
-            r3.require(per == ["b64"], (bfn, "composition", "PERMITTED_CRITS"),
-                       "validate_b64 accepts (b64 present, crit not listing b64) through its `_` row; this is only unreachable while PERMITTED_CRITS == [\"b64\"], found %s" % per)
-            r3.exception("validate_b64 `_ => Ok` row for (Some, Some(values∌b64))", "checked", "unreachable: C11-R1 (validate_crit ∧ validate_b64 both required) ∧ C11-R2 (values ⊆ PERMITTED_CRITS) ∧ PERMITTED_CRITS == [b64], all verified in this run")
+    if r3.anchor(F.hir(bfn), bfn):
+        tab = SR.Table(F, bfn, rule=r3)
+        UNP, PRO = SR.param("unprotected"), SR.param("protected")
+
+        def b64_of(q, root):
+            for t_, v_ in q.variant.items():
+                if isinstance(v_, str) and SR.derives(t_, root) and isinstance(t_, tuple) and t_[:1] == ("field",) and t_[2] == "b64":
+                    return v_
+            return None
+
+        def crit_of(q):
+            for t_, v_ in q.variant.items():
+                if isinstance(v_, str) and SR.derives(t_, PRO) and isinstance(t_, tuple) and t_[:1] == ("field",) and t_[2] == "crit":
+                    return v_
+            return None
+        rows = set()
+        for q in tab.paths:
+            rows.add((b64_of(q, UNP), b64_of(q, PRO), crit_of(q), "Ok" if SR.is_success(q.ret) else "Err"))
+        for row in sorted(rows, key=str):
+            r3.site("validate_b64 row: unprotected b64 %s, protected b64 %s, protected crit %s → %s" % row)
+        r3.require(not any(u == "Some" and o == "Ok" for u, b, c, o in rows) and any(u == "Some" for u, b, c, o in rows), (bfn, "unprotected-b64", "missing"),
+                   "validate_b64 does not reject an unprotected b64 parameter: %s" % sorted(rows, key=str))
+        r3.require(not any(b == "Some" and c != "Some" and o == "Ok" for u, b, c, o in rows) and any(b == "Some" and c == "None" for u, b, c, o in rows), (bfn, "row", "(Some,None)"),
+                   "validate_b64 accepts a protected b64 without a crit parameter: %s" % sorted(rows, key=str))
+        # (b64 present, crit present but not listing b64): accepted by validate_b64 alone; unreachable in validate_jws_headers because
+        # validate_crit (C11-R2, same conjunction C11-R1) rejects an empty crit and every value that is not an implemented extension,
+        # and the only implemented extension is b64.  Decided here by requiring exactly that composition.
+        r3.require(S.IMPLEMENTED_CRIT_EXTENSIONS == ["b64"], (bfn, "composition", "PERMITTED_CRITS"),
+                   "validate_b64 tolerates (b64 present, crit not listing b64); that is only unreachable while b64 is the only accepted crit value")
+        r3.exception("validate_b64 accepts (b64, crit ∌ b64)", "checked", "unreachable: C11-R1 requires validate_crit ✓ too, and C11-R2 shows validate_crit accepts only non-empty lists of \"b64\"")
     r3.floor(4)
 
     # ------------------------------------------------------------------ R4 disjointness
@@ -230,52 +184,43 @@ def run(F, R, tier):
     # ------------------------------------------------------------------ R5 add_recipient b64 consistency
     r5 = R.rule("C11-R5", "T2+T6", "GeneralJwsEncoder::add_recipient: extract_b64(recipient.protected) != self.b64 → Err dominates success")
     afn = ENC + "::GeneralJwsEncoder::add_recipient"
-    h = F.hir(afn)
-    if r5.anchor(h, afn):
-        env = H.Env(h)
-        tree, infos = L.exit_infos(h)
-        for e in infos:
-            if not L.is_success_exit(e):
+    nfn = ENC + "::GeneralJwsEncoder::new"
+    OPQ = r"validate_jws_headers$|create_message$|::encode_b64(_json)?$|encode_if_b64$"
+    if r5.anchor(F.hir(afn), afn) and r5.anchor(F.hir(nfn), nfn):
+        RB64 = ("field", ("payload", SR.fld("protected", base=SR.param("recipient")), "Some", 0), "b64")
+        tab = SR.Table(F, afn, opaque=OPQ, rule=r5)
+
+        def consistent(q):
+            # the recipient's effective b64 (its protected header's b64, default true) was compared with self.b64 and found equal
+            for (a, c, _, _) in q.decisions:
+                if a[0] == "eq" and c is True and (SR.derives(a[1], SR.fld("b64")) or SR.derives(a[2], SR.fld("b64"))):
+                    other = a[2] if SR.derives(a[1], SR.fld("b64")) else a[1]
+                    if SR.derives(other, RB64) and q.variant.get(RB64) == "Some":
+                        return True
+                    if other == ("lit", True) and q.variant.get(RB64) != "Some":
+                        return True
+            return False
+        SR.require_on_success(r5, tab, "effective b64 of the new recipient == self.b64", consistent, key=(afn, "b64-consistency"),
+                              what="extract_b64(recipient.protected) == self.b64")
+        for q in tab.ok():
+            enc = q.ret.fields[0] if isinstance(q.ret, sym.V) and q.ret.fields else None
+            if isinstance(enc, sym.St) and "b64" in enc.f:
+                r5.require(sym.term(enc.f["b64"]) == SR.fld("b64"), (afn, "b64-carried"), "add_recipient does not carry self.b64 over: %r" % (enc.f["b64"],))
+        r5.site("add_recipient carries b64 from self")
+        # GeneralJwsEncoder::new records the first recipient's effective b64
+        t2 = SR.Table(F, nfn, opaque=OPQ, rule=r5)
+        FB64 = ("field", ("payload", SR.fld("protected", base=SR.param("first_recipient")), "Some", 0), "b64")
+        for q in t2.ok():
+            enc = q.ret.fields[0] if isinstance(q.ret, sym.V) and q.ret.fields else None
+            if not (isinstance(enc, sym.St) and "b64" in enc.f):
+                r5.fail((nfn, "b64-field"), "GeneralJwsEncoder::new: the constructed encoder is not visible to the evaluator")
                 continue
-            ok = False
-            for c in e.conds:
-                if c[0] != "if":
-                    continue
-                inner, neg = H.negated(c[1])
-                inner = H.strip(inner)
-                if inner.get("k") == "binary" and inner.get("op") in ("Ne", "Eq"):
-                    ol = H.origins(inner["l"], env) | H.origins(inner["r"], env)
-                    has_new = any(o[0] == "call" and o[1].endswith("extract_b64") for o in ol)
-                    has_old = any(o[:3] == ("param", "self", "b64") for o in ol)
-                    # holds when: (a != b) is False, or (a == b) is True
-                    equal_established = (inner["op"] == "Ne") != (c[2] != neg) if False else ((inner["op"] == "Ne" and (c[2] != neg) is False) or (inner["op"] == "Eq" and (c[2] != neg) is True))
-                    if has_new and has_old and equal_established:
-                        ok = True
-                        r5.site("success exit guarded by new_b64 == self.b64", inner["sp"])
-            r5.require(ok, (afn, "b64-consistency"), "add_recipient can succeed without `extract_b64(recipient.protected) == self.b64` having been established", e.node.get("sp"))
-        L.arg_origin_check(r5, F, afn, SER + "::extract_b64", 0, [("param", "recipient", "protected")], "extract_b64-arg", env, h)
-        # GeneralJwsEncoder::new records b64 from the first recipient's protected header
-        nfn = ENC + "::GeneralJwsEncoder::new"
-        nh = F.hir(nfn)
-        if r5.anchor(nh, nfn):
-            nenv = H.Env(nh)
-            lits = [s for s in H.struct_lits(nh) if s.get("ty", "").endswith("GeneralJwsEncoder")]
-            for s in lits:
-                for f in s["fields"]:
-                    if f["name"] == "b64":
-                        oo = H.origins(f["e"], nenv)
-                        r5.site("GeneralJwsEncoder{b64: %s}" % sorted(map(str, oo)), f["e"].get("sp"))
-                        r5.require(all(o[0] == "call" and o[1].endswith("extract_b64") for o in oo), (nfn, "b64-field"), "b64 recorded by GeneralJwsEncoder::new is not extract_b64(first_recipient.protected)")
-            L.arg_origin_check(r5, F, nfn, SER + "::extract_b64", 0, [("param", "first_recipient", "protected")], "extract_b64-arg", nenv, nh)
-        # in add_recipient the b64 field of the result is carried over from self
-        for s in H.struct_lits(h):
-            if s.get("ty", "").endswith("GeneralJwsEncoder"):
-                for f in s["fields"]:
-                    if f["name"] == "b64":
-                        oo = H.origins(f["e"], env)
-                        r5.require(all(o[:3] == ("param", "self", "b64") for o in oo), (afn, "b64-carried"), "add_recipient does not carry self.b64 over: %s" % sorted(map(str, oo)))
-                        r5.site("add_recipient carries b64 from self", f["e"].get("sp"))
-    r5.floor(5)
+            v = enc.f["b64"]
+            want_some = q.variant.get(FB64) == "Some"
+            good = SR.derives(v, FB64) if want_some else (v is True)
+            r5.require(good, (nfn, "b64-field"), "b64 recorded by GeneralJwsEncoder::new is not the first recipient's effective b64 (protected b64, default true): %r" % (v,))
+        r5.site("GeneralJwsEncoder::new records extract_b64(first_recipient.protected) on %d accepting path(s)" % len(t2.ok()))
+    r5.floor(3)
 
     # ------------------------------------------------------------------ R6 alg required at verification
     r6 = R.rule("C11-R6", "T4", "JwsValidationItem::verify: protected header absent → MissingHeader; alg absent → ProtectedHeaderWithoutAlg; both precede verification")
